@@ -20,7 +20,10 @@ func Table() map[string]*Property {
 		Groups: []Group{{Layer: "D", Pkg: "derive", Funcs: []string{
 			"derive.eq", "derive.typesMap.nameOf", "derive.typesMap.newName", "derive.typesMap.SetFuncName",
 			"derive.typesMap.GetFuncName", "derive.typesMap.Generating", "derive.typesMap.isGenerated",
-		}}, {Layer: "D", Pkg: "derive", Ghost: fsGhost, Funcs: []string{"derive.union", "derive.newPackage"}}},
+		}}, {Layer: "D", Pkg: "derive", Ghost: fsGhost, Funcs: []string{"derive.union", "derive.newPackage",
+			// the way of the two flags from the command line to every type table: each hand-over keeps each flag in its own place
+			"derive.newTypesMap", "derive.program.generatePackage", "derive.program.Generate", "derive.plugins.Load", "derive.NewPlugins"}},
+			{Layer: "D", Pkg: "main", Ghost: mainGhost, Funcs: []string{"main.main"}}},
 		Assumptions: []string{
 			"A-int: machine integers are mathematical integers",
 			"EqIsEquivalence: assignability (derive.eq) is reflexive, symmetric and transitive on the argument type lists involved (the property quantifies over pairwise non-assignable types)",
@@ -234,8 +237,11 @@ func Table() map[string]*Property {
 			{Layer: "D", Pkg: "derive", Funcs: []string{"derive.typesMap.isGenerated", "derive.typesMap.ToGenerate", "derive.typesMap.Done", "derive.typesMap.Generating", "derive.pkg.Done", "derive.pkg.Generate",
 				// the name table every lookup goes through: a call resolves to the function registered for exactly its (assignable) type list
 				"derive.eq", "derive.typesMap.nameOf", "derive.typesMap.newName", "derive.typesMap.SetFuncName", "derive.typesMap.GetFuncName",
-				// the import alias closure: the alias a plugin prints is bound to the path it asked for
-				"derive.printer.NewImport_lit1"}},
+				// the import alias closure: the alias a plugin prints is bound to the path it asked for;
+				// WriteTo: every registered import path reaches the import block exactly once
+				"derive.printer.NewImport_lit1", "derive.printer.WriteTo",
+				// the built-in contract of Printer.P / In / Out / HasContent that Layer G evaluates the plugins with, against the bodies
+				"derive.printer.P", "derive.printer.In", "derive.printer.Out", "derive.printer.HasContent"}},
 			{Layer: "O", NoVC: true, Funcs: c01, Only: textLevel},
 		},
 		Assumptions: []string{
@@ -254,7 +260,12 @@ func Table() map[string]*Property {
 		},
 		Groups: []Group{{Layer: "O", NoVC: true, Funcs: c09, Only: genLevel},
 			// the driver's own run-time safety (find.go): newCall's "unreachable" panic is unreachable, no nil dereference, no index out of range
-			{Layer: "D", Pkg: "derive", Ghost: fsGhost, Funcs: []string{"derive.finder.Visit", "derive.getInputTypes", "derive.newCall", "derive.newFileInfos"}}},
+			{Layer: "D", Pkg: "derive", Ghost: fsGhost, Funcs: []string{"derive.finder.Visit", "derive.getInputTypes", "derive.newCall", "derive.newFileInfos",
+				// the driver's dispatch and work loop: a plugin's refusal reaches the exit status (pkg.Add hands the call to the
+				// first matching plugin only; pkg.Generate returns successfully only with every work list empty)
+				"derive.pkg.Add", "derive.pkg.Done", "derive.pkg.Generate", "derive.newPackage", "derive.program.generatePackage", "derive.program.Generate",
+				// Out's panic ("unindenting more than has been indented") is the one Layer G counts as a generator panic
+				"derive.printer.P", "derive.printer.In", "derive.printer.Out", "derive.printer.HasContent"}}},
 		Assumptions: []string{
 			"PARTIAL. Decided: on every path of every plugin's Add (33 plugins, argument lists of 0..3 types of every kind, incl. tuple types) and of the generator functions listed, the generator code does not panic (index, type assertion, nil, Tuple.At), an error created on the path reaches the function's result (G2), callee preconditions hold (G1), indentation is balanced (G3), and on every non-error path the emitted text parses (G4), keeps its operand holes intact and type-checks under the prelude synthesised from the path condition",
 			"NOT decided here: termination / hangs; the content of the messages; derive/load.go and flag handling in main.go (go/packages); of derive/find.go only newFileInfos, finder.Visit, newCall and getInputTypes are under contract (no panic, given that go/types stores no nil object in Info.Uses and the loader no nil file); pkg.Generate's 'Generator Error' wrapping (Layer D covers generate.go's file effects under C07/C10 only); Generate of gostring and do; for clone, deepcopy, dup, pipeline, curry, flip, uncurry, toerror, fmap, join, equal, compare, hash, tuple, traverse, mem the inner emitting functions are explored themselves with the domain their contracts state (e.g. three channels for join's variant form), not only through the Generate dispatch",
